@@ -370,7 +370,7 @@ class S256Point(Point):
         v = sig.r * s_inv % N
         # u*G + v*P should have as the x coordinate, r
         total = u * G + v * self
-        return total.x.num == sig.r
+        return total.x.num % N == sig.r
 
     def verify_message(self, message, sig):
         """Verify a message in the form of bytes. Assumes that the z
